@@ -626,6 +626,11 @@ func main() {
 		r.Violate("worker-died", "a worker process died while serving histories (panic outside ServeConn, fatal error or out of memory)", c, nil, nil)
 	}
 
+	// concurrent mixes: two requests in flight on one application (small; runs in this process, GC as usual)
+	if r.Replay == "" {
+		runConcurrentMixes(r)
+	}
+
 	// sizes for the evidence (the alphabets are rebuilt here only to name them)
 	debug.SetGCPercent(-1)
 	buildAlphabets()
@@ -660,7 +665,7 @@ func main() {
 		},
 		Assumptions: []string{
 			fmt.Sprintf("pool flush (runtime.GC() x2) before every trace with <= %d preceding requests (exception: after 2 or more preceding requests, traces whose probe or history contains a letter of the application-state family follow the rule for longer histories); for longer histories before the first of the %d probe traces of a (config, history, connection pattern) — the others run on a fresh application but with the process-global pools as the previous trace left them, and any difference found is re-run after a flush", fullPatternDepth, len(probes)),
-			"sequential histories only (one request at a time, GOMAXPROCS=1, GC off during a trace so pooled objects are reused deterministically); concurrent mixes are not explored by this check",
+			"histories are sequential (one request at a time, GOMAXPROCS=1, GC off during a trace so pooled objects are reused deterministically); concurrent mixes are a separate part: every ordered pair of 7 request kinds (route parameters, wildcard + flash cookie, JSON / form binding, redirect with flash, 404) in flight on one application, all interleavings with <= 2 preemptions at handler/middleware yields and at every pool / mutex / atomic operation of the core and binder packages, each response compared with the same request served alone (counters cc_executions, cc_points)",
 			"wire level through app.Server().ServeConn on an in-memory connection that delivers one request per read; fasthttp's worker pool (goroutine reuse) is bypassed, its RequestCtx pool and fiber's ctx/redirect/binder pools are real",
 			"Date header disabled (Config.DisableDefaultDate); no Server header",
 			"flash-cookie array headers are kept small enough not to exhaust memory (C12 covers allocation)",
